@@ -504,3 +504,171 @@ def vc_codegen_sqrt(H):
             ctx.oblige("args bind x to its values", kw.get('args') == {'x': 'XVALS'})
             return r
         H.run_paths(fuc, case, body)
+
+
+# ------------------------------------------------------------------ C19: MultiVector.exp of a simple element
+class _SqScalar(Rec):
+    """The scalar s = <x*x>_0 seen by MultiVector.exp: an opaque leaf with a real value `s`, whose *type* (sympy expression,
+    python number, anything else) is fixed per scenario and whose sign is decided by the path."""
+
+    def __init__(self, kind):
+        super().__init__('sym', 's')
+        self.tkind = kind
+        self.s = z3.Real('s')
+
+    def kvc_isinstance(self, interp, cls):
+        classes = cls if isinstance(cls, tuple) else (cls,)
+        for c in classes:
+            if isinstance(c, Rec) and c.parts[0] == 'Expr' and self.tkind == 'expr':
+                return True
+            if c in (float, int) and self.tkind == 'number':
+                return True
+        return False
+
+    def kvc_cmp(self, interp, op, other):
+        from kvc.values import mkbool
+        if not isinstance(other, (int, float)):
+            raise OutOfSubset('comparison of the squared scalar with a non-number')
+        o = z3.RealVal(other)
+        return mkbool({'Gt': self.s > o, 'GtE': self.s >= o, 'Lt': self.s < o, 'LtE': self.s <= o}[op])
+
+    def kvc_eq(self, interp, other):
+        from kvc.values import mkbool
+        if isinstance(other, (int, float)):
+            return mkbool(self.s == z3.RealVal(other))
+        return other is self
+
+
+def vc_exp(H):
+    """exp(x) for x*x == s (a scalar):  cosh(sqrt(s)) + x sinh(sqrt(s))/sqrt(s)  for numbers s > 0,  1 + x  for s == 0,
+    cos(sqrt(-s)) + x sin(sqrt(-s))/sqrt(-s)  for numbers s < 0, for sympy expressions and for every other coefficient type
+    (numpy); anything that does not square to a scalar raises; user-supplied (cosh, sinhc, sqrt) are applied as documented.
+    The returned operator tree is *evaluated* (linear form a*x + b over uninterpreted Sqrt/Sin/Cos/Sinh/Cosh, numpy's
+    sinc(t) = sin(pi t)/(pi t)) and compared with these formulas by the solver -- not matched textually."""
+    fuc = H.fn(MV, 'MultiVector.exp')
+    R = z3.RealSort()
+    Sqrt, Sin, Cos, Sinh, Cosh = (z3.Function(n, R, R) for n in ('Sqrt', 'Sin', 'Cos', 'Sinh', 'Cosh'))
+    PI = z3.Real('pi')
+
+    def world(ctx, kind, grades):
+        np_ = sym('numpy', attrs={'pi': sym('numpy.pi')})
+        ll = 0 if grades == () else _SqScalar(kind)
+        flt = sym('filtered-square', attrs={'grades': grades, 'e': ll})
+        sq = sym('x*x', attrs={'filter': sym('filter', callable_result=lambda i, m, a, k: flt)})
+
+        class Me(Rec):
+            def kvc_binop(self, interp, op, other, reflected):
+                if op == 'Mult' and other is self:
+                    return sq
+                return Rec.kvc_binop(self, interp, op, other, reflected)
+        me = Me('sym', 'self')
+        interp = Interp(ctx, source_name=MV)
+        interp.modules = {'numpy': np_}
+        env = {'Expr': sym('Expr'), 'cos': sym('sympy.cos'), 'sinc': sym('sympy.sinc')}
+        return me, ll, np_, interp, env
+
+    def lin(x, me, ll):
+        """value of an operator tree as (a, b) meaning a*self + b"""
+        if x is me:
+            return z3.RealVal(1), z3.RealVal(0)
+        if isinstance(x, bool):
+            raise OutOfSubset('boolean in the exp() result')
+        if isinstance(x, (int, float)):
+            return z3.RealVal(0), z3.RealVal(x)
+        if isinstance(x, _SqScalar):
+            return z3.RealVal(0), x.s
+        if not isinstance(x, Rec):
+            raise OutOfSubset(f'exp() result contains {type(x).__name__}')
+        if x.kind == 'sym' and x.parts[0] == 'numpy.pi':
+            return z3.RealVal(0), PI
+        if x.kind == 'unop' and x.parts[0] == 'USub':
+            a, b = lin(x.parts[1], me, ll)
+            return -a, -b
+        if x.kind == 'binop':
+            op, l, r = x.parts
+            (a1, b1), (a2, b2) = lin(l, me, ll), lin(r, me, ll)
+            zero = lambda t: z3.is_rational_value(z3.simplify(t)) and z3.simplify(t).as_fraction() == 0
+            if op == 'Add':
+                return a1 + a2, b1 + b2
+            if op == 'Sub':
+                return a1 - a2, b1 - b2
+            if op == 'Mult':
+                if zero(a1):
+                    return b1 * a2, b1 * b2
+                if zero(a2):
+                    return a1 * b2, b1 * b2
+                raise OutOfSubset('exp() result is not linear in self')
+            if op == 'Div' and zero(a2):
+                return (z3.RealVal(0) if zero(a1) else a1 / b2), b1 / b2
+            if op == 'Pow' and zero(a1) and zero(a2) and z3.simplify(b2).eq(z3.RealVal('1/2')):
+                return z3.RealVal(0), Sqrt(b1)
+            raise OutOfSubset(f'exp() result: operator {op} not evaluated')
+        if x.kind == 'call' and isinstance(x.parts[0], Rec) and len(x.parts[1]) == 1 and not x.parts[2]:
+            f, (arg,) = x.parts[0], x.parts[1]
+            a, b = lin(arg, me, ll)
+            if not (z3.is_rational_value(z3.simplify(a)) and z3.simplify(a).as_fraction() == 0):
+                raise OutOfSubset('function of self in the exp() result')
+            name = repr(f)
+            table = {'<numpy>.cosh': Cosh(b), '<numpy>.sinh': Sinh(b), '<numpy>.cos': Cos(b), '<numpy>.sin': Sin(b),
+                     '<numpy>.sinc': Sin(PI * b) / (PI * b), '<sympy.cos>': Cos(b), '<sympy.sinc>': Sin(b) / b, '<numpy>.sqrt': Sqrt(b)}
+            if name in table:
+                return z3.RealVal(0), table[name]
+        raise OutOfSubset(f'exp() result: {x!r} not evaluated')
+
+    for kind in ('number', 'expr', 'other'):
+        def body(ctx, kind=kind):
+            me, ll, np_, interp, env = world(ctx, kind, (0,))
+            ctx.assume(z3.And(PI > 3, PI < 4))
+            r = H.closure(interp, fuc, env)(me)
+            a, b = lin(r, me, ll)
+            s = ll.s
+            if kind == 'number':
+                pos, zer = ctx.decide(s > 0), False
+                if not pos:
+                    zer = ctx.decide(s == 0)
+            else:
+                pos = zer = False
+            if pos:
+                l = Sqrt(s)
+                ctx.oblige('exp, s > 0: cosh(sqrt(s)) + x * sinh(sqrt(s)) / sqrt(s)', z3.Implies(l != 0, z3.And(a == Sinh(l) / l, b == Cosh(l))))
+            elif zer:
+                ctx.oblige('exp, s == 0: 1 + x', z3.And(a == 1, b == 1))
+            else:
+                l = Sqrt(-s)
+                # sinc(0) = 1 is numpy's / sympy's own convention; for l != 0:
+                ctx.oblige(f'exp, {"s < 0" if kind == "number" else kind + " coefficient"}: cos(sqrt(-s)) + x * sin(sqrt(-s)) / sqrt(-s)',
+                           z3.Implies(l != 0, z3.And(a == Sin(l) / l, b == Cos(l))))
+            return r
+        H.run_paths(fuc, f'coefficient type={kind}', body)
+
+    def body_zero(ctx):
+        me, ll, np_, interp, env = world(ctx, 'number', ())
+        r = H.closure(interp, fuc, env)(me)
+        a, b = lin(r, me, None)
+        ctx.oblige('exp of an element with x*x == 0 (empty square): 1 + x', z3.And(a == 1, b == 1))
+        return r
+    H.run_paths(fuc, 'null square', body_zero)
+
+    def body_nonsimple(ctx):
+        me, ll, np_, interp, env = world(ctx, 'number', (0, 2))
+        try:
+            r = H.closure(interp, fuc, env)(me)
+            raised = None
+        except NotImplementedError as e:
+            r, raised = None, e
+        ctx.oblige('exp of an element whose square is not a scalar raises NotImplementedError', raised is not None)
+        if raised is not None:
+            ctx.notes.append('expected-raise'); raise raised
+        return r
+    H.run_paths(fuc, 'not simple', body_nonsimple)
+
+    def body_custom(ctx):
+        me, ll, np_, interp, env = world(ctx, 'other', (0,))
+        C, S, Q = sym('cosh'), sym('sinhc'), sym('sqrt')
+        r = H.closure(interp, fuc, env)(me, cosh=C, sinhc=S, sqrt=Q)
+        l = Rec('call', Q, (ll,), {})
+        exp = Rec('binop', 'Add', Rec('binop', 'Mult', me, Rec('call', S, (l,), {})), Rec('call', C, (l,), {}))
+        alt = Rec('binop', 'Add', Rec('call', C, (l,), {}), Rec('binop', 'Mult', me, Rec('call', S, (l,), {})))
+        ctx.oblige('exp with user functions: x * sinhc(sqrt(s)) + cosh(sqrt(s))', bool(same(r, exp) or same(r, alt)), meta={'got': repr(r)})
+        return r
+    H.run_paths(fuc, 'user functions', body_custom)
